@@ -56,11 +56,25 @@ def suite_part(pid, tier):
     return divs, cov
 
 
-PARTS = {'element': _elem.element_part, 'values': values_part, 'doc': doc_part, 'suite': suite_part}
+def mc_part(pid, tier):
+    """ElementMC: the clause set as a state machine over the real automata (consistency, Inv_Ext, Inv_Complete)"""
+    from .. import element_mc
+    r = element_mc.run(tier)
+    cov = dict(states=r['states'], transitions=r['transitions'], traces_validated_against_impl=0, evaluations=r['states'],
+               distinct_nontrivial=r['states'],
+               rule='ElementMC.tla: every reachable state of the clause-defined state machine (<= %d children, %d types) satisfies Inv_Ext '
+                    '(completability is invariant, closed under remove / replace), Inv_Complete (a completable bag has a completion), Inv_SubOrd, and '
+                    'every call has an outcome that no clause forbids (AddDecidable, RemoveDecidable, ReplaceDecidable, ToStringDecidable, SuccessAllowed); '
+                    'this part validates the specification, not the implementation' % (r['max_children'], r['types']),
+               element_types=r['types'], wall_s=r['wall'], samples=[dict(invariants=['Inv_Ext', 'Inv_Complete', 'Inv_SubOrd', 'AddDecidable', 'ToStringDecidable'])])
+    return [], cov
+
+
+PARTS = {'element': _elem.element_part, 'values': values_part, 'doc': doc_part, 'suite': suite_part, 'mc': mc_part}
 SOURCES = {
     'C04': ['values'], 'C05': ['values'],
     'C08': ['doc'], 'C09': ['doc'], 'C14': ['doc'],
-    'C01': ['element', 'suite'], 'C02': ['element', 'suite'], 'C06': ['element', 'suite'], 'C07': ['element', 'suite'],
+    'C01': ['element', 'suite'], 'C02': ['element', 'suite'], 'C06': ['element', 'suite'], 'C07': ['element', 'suite', 'mc'],
     'C11': ['element'], 'C12': ['element', 'suite'], 'C18': ['element', 'suite'],
     'C10': ['element', 'values', 'suite'], 'C15': ['element', 'values', 'suite'], 'C16': ['element', 'values', 'doc', 'suite'],
     'C19': ['element', 'values', 'doc', 'suite'],
@@ -108,7 +122,7 @@ def run_multi(pid, tier, replay=None):
         d, c = PARTS[src](pid, tier)
         divs += d
         covs.append((src, c))
-        assume += {'element': _elem.ASSUME, 'values': ASSUME_VALUES, 'doc': ASSUME_DOC, 'suite': ASSUME_SUITE}[src]
+        assume += {'element': _elem.ASSUME, 'values': ASSUME_VALUES, 'doc': ASSUME_DOC, 'suite': ASSUME_SUITE, 'mc': []}[src]
     return common.conclude(pid, tier, divs, merge(covs), t0, assumptions=assume)
 
 
